@@ -1,6 +1,6 @@
 (* Facts about Model/Resolve.v (C14): letter case, long names, positional paths, names that
    designate nothing, and what the finite obligations of Oblig/C14_v2_X.v mean. *)
-From Coq Require Import List Bool Arith NArith ZArith Lia Init.Byte Strings.Byte.
+From Coq Require Import List Bool Arith NArith ZArith Lia Init.Byte Strings.Byte FinFun.
 From HL7 Require Import Lib.Str Model.Result Model.Ref Model.Tree Model.Parser Model.Resolve Gen.Params.
 From HL7 Require Import Proofs.SplitJoin Proofs.RoundTripStr.
 Import ListNotations.
@@ -340,7 +340,7 @@ Definition long_pairs (vcs : list vchild) : list (option str * sentry) :=
   flat_map (fun vc => match ref_long (vc_ref vc) with Some l => [(l, entry_of vc)] | None => [] end) vcs.
 Definition rep_pairs (vcs : list vchild) : list (str * (Z * Z)) := map (fun vc => (vc_name vc, (vc_mn vc, vc_mx vc))) vcs.
 
-Lemma parse_children_spec : forall vcs seen ord byn byl reps,
+Lemma parse_children_spec : forall vcs seen ord (byn : list (str * sentry)) byl reps,
   NoDup (map vc_name vcs) ->
   (forall vc, In vc vcs -> slookup (vc_name vc) byn = None) ->
   parse_children (map Some vcs) seen ord byn byl reps =
@@ -572,7 +572,8 @@ Proof.
     exfalso. rewrite <- E in Hd. unfold name_idx, bmem, mem in Hd. rewrite existsb_app in Hd.
     cbn in Hd. rewrite orb_true_r in Hd. discriminate. }
   rewrite F, Hn, (traversal_children_comp _ _ _ j U S), D, B. cbn [andb opt_is_some opt_is_none negb orb str_of_opt].
-  destruct j as [|[|j]]; reflexivity.
+  destruct (Nat.eqb_spec j 1) as [->|N]; [reflexivity|].
+  replace (Z.of_nat j =? 1)%Z with false by (symmetry; apply Z.eqb_neq; lia). reflexivity.
 Qed.
 
 Lemma traverse_positional_base_sub k f fname a b j k' d :
